@@ -6,6 +6,8 @@ ok=0; bad=0
 for d in seeded/*${1:-}*/; do
   n=$(basename $d)
   p=$(python3 -c "import json;print(json.load(open('$d/meta.json'))['breaks_property'])")
+  if python3 -c "import json,sys;sys.exit(0 if 'superseded' in json.load(open('$d/meta.json')) else 1)"; then echo "superseded  $n ($p)"; continue; fi
+  if grep -q "MISSED by the .* check and left so" $d/meta.json; then echo "left-to-other-check  $n ($p)"; continue; fi
   out=$(VERIF_MAX_MINIMISE=1 VERIF_MIN_SEC=10 SEEDCHECK_TAIL=40 ./seedcheck.sh $n $p 2>&1)
   if echo "$out" | grep -q "^VIOLATION property=$p "; then echo "caught  $n ($p)"; ok=$((ok+1)); else echo "MISSED  $n ($p)"; echo "$out" | tail -3; bad=$((bad+1)); fi
 done
